@@ -427,6 +427,12 @@ func gen(g *zv.Gen) {
 	for i := 0; i < m; i++ {
 		cmin, cmax := verPair(r)
 		smin, smax := verPair(r)
+		if r.Chance(50) { // mostly-valid stream: make the ranges overlap
+			smin, smax = 0, []int{0, 771, 772, cmax}[r.Intn(4)]
+			if cmin > smax && smax != 0 {
+				cmin = 0
+			}
+		}
 		cs, ss := "d", "d"
 		force := 0
 		if r.Chance(55) {
@@ -442,7 +448,18 @@ func gen(g *zv.Gen) {
 			cs = showList(l)
 		}
 		if r.Chance(55) {
-			ss = showList(subset(r, withT13, 8))
+			l := subset(r, withT13, 8)
+			if cs != "d" && r.Chance(70) { // share at least the client's ids
+				cl2, _ := parseList(cs)
+				for _, x := range cl2 {
+					if !contains(l, x) && x != tls.TLS_FALLBACK_SCSV {
+						l = append(l, x)
+					}
+				}
+				r2 := r.Intn(len(l))
+				l[0], l[r2] = l[r2], l[0]
+			}
+			ss = showList(l)
 		}
 		cc, sc := "d", "d"
 		if r.Chance(35) {
